@@ -40,7 +40,7 @@ def codes():
     """The bundled table (fresh dict each call, so no run can leak table edits into the next)."""
     global _codes
     if _codes is None:
-        _codes = tc_mod.default_trace_codes()
+        _codes = dict(tc_mod.default_trace_codes())      # the harness's own snapshot, never the object the library handed out
     return dict(_codes)
 
 
